@@ -504,7 +504,7 @@ theorem UP.tag {g : Nat} {P : Pending → Prop} {a : Agent} (h : UP g P a) : a.t
 
 @[simp] theorem u_inboundData (g : Nat) (P : Pending → Prop) (a : Agent) (now : Nat) (l : Cand) (src len : Nat)
     (h : UP g P a) : UP g P (a.inboundData now l src len).1 := by
-  unfold Agent.inboundData
+  unfold Agent.inboundData Agent.enqueue
   ok_cases
 
 @[simp] theorem u_doRestart (g : Nat) (P : Pending → Prop) (a : Agent) (now : Nat) (x p : String) (h : UP g P a) :
@@ -1038,7 +1038,7 @@ theorem runTimers_seq (a : Agent) (now fuel : Nat) :
 @[simp] theorem tg_inboundData (a : Agent) (now : Nat) (l : Cand) (src len : Nat) : (a.inboundData now l src len).1.tag = a.tag :=
   congrArg Core.tag (core_inboundData a now l src len)
 @[simp] theorem nt_inboundData (a : Agent) (now : Nat) (l : Cand) (src len : Nat) : (a.inboundData now l src len).1.nextTid = a.nextTid := by
-  unfold Agent.inboundData
+  unfold Agent.inboundData Agent.enqueue
   tr_cases
 @[simp] theorem nr_inboundData (a : Agent) (now : Nat) (l : Cand) (src len : Nat) : nreq (a.inboundData now l src len).2 = 0 := by
   unfold Agent.inboundData
